@@ -1,8 +1,10 @@
 //! C18: num_traits / num_integer implementations, called THROUGH THE TRAITS.
+#![allow(deprecated)]
 use bnum_verif_harness::*;
 use num_integer::{Integer, Roots};
-use num_traits::{Bounded, CheckedAdd, CheckedDiv, CheckedMul, CheckedNeg, CheckedRem, CheckedSub, Euclid, MulAdd, Num, One, Pow, PrimInt,
-    Saturating, Signed, WrappingAdd, WrappingMul, WrappingNeg, WrappingSub, Zero};
+use num_traits::{Bounded, CheckedAdd, CheckedDiv, CheckedMul, CheckedNeg, CheckedRem, CheckedShl, CheckedShr, CheckedSub, Euclid, MulAdd,
+    MulAddAssign, Num, One, Pow, PrimInt, Saturating, SaturatingAdd, SaturatingMul, SaturatingSub, Signed, WrappingAdd, WrappingMul,
+    WrappingNeg, WrappingShl, WrappingShr, WrappingSub, Zero};
 use num_traits::ops::overflowing::{OverflowingAdd, OverflowingSub};
 use num_traits::ops::euclid::CheckedEuclid;
 
@@ -18,6 +20,14 @@ macro_rules! common {
             "div_rem" => return Some(Integer::div_rem(&v(0), &v(1)).out()),
             "div_mod_floor" => return Some(Integer::div_mod_floor(&v(0), &v(1)).out()),
             "is_multiple_of" => return Some(Integer::is_multiple_of(&v(0), &v(1)).out()),
+            "divides" => return Some(Integer::divides(&v(0), &v(1)).out()),
+            // num-integer's provided methods (not overridden by bnum): run on the crate's operators
+            "div_ceil" => return Some(Integer::div_ceil(&v(0), &v(1)).out()),
+            "next_multiple_of" => return Some(Integer::next_multiple_of(&v(0), &v(1)).out()),
+            "prev_multiple_of" => return Some(Integer::prev_multiple_of(&v(0), &v(1)).out()),
+            "gcd_lcm" => return Some(Integer::gcd_lcm(&v(0), &v(1)).out()),
+            "inc" => { let mut x = v(0); Integer::inc(&mut x); return Some(x.out()) }
+            "dec" => { let mut x = v(0); Integer::dec(&mut x); return Some(x.out()) }
             "is_even" => return Some(Integer::is_even(&v(0)).out()),
             "is_odd" => return Some(Integer::is_odd(&v(0)).out()),
             "sqrt" => return Some(Roots::sqrt(&v(0)).out()),
@@ -37,9 +47,18 @@ macro_rules! common {
             "wrapping_neg" => return Some(WrappingNeg::wrapping_neg(&v(0)).out()),
             "saturating_add" => return Some(Saturating::saturating_add(v(0), v(1)).out()),
             "saturating_sub" => return Some(Saturating::saturating_sub(v(0), v(1)).out()),
+            "saturating_add_ref" => return Some(SaturatingAdd::saturating_add(&v(0), &v(1)).out()),
+            "saturating_sub_ref" => return Some(SaturatingSub::saturating_sub(&v(0), &v(1)).out()),
+            "saturating_mul_ref" => return Some(SaturatingMul::saturating_mul(&v(0), &v(1)).out()),
+            "checked_shl" => return Some(CheckedShl::checked_shl(&v(0), parse_u32(a[1])).out()),
+            "checked_shr" => return Some(CheckedShr::checked_shr(&v(0), parse_u32(a[1])).out()),
+            "wrapping_shl" => return Some(WrappingShl::wrapping_shl(&v(0), parse_u32(a[1])).out()),
+            "wrapping_shr" => return Some(WrappingShr::wrapping_shr(&v(0), parse_u32(a[1])).out()),
             "overflowing_add" => return Some(OverflowingAdd::overflowing_add(&v(0), &v(1)).out()),
             "overflowing_sub" => return Some(OverflowingSub::overflowing_sub(&v(0), &v(1)).out()),
             "pow" => return Some(Pow::pow(v(0), parse_u32(a[1])).out()),
+            "primint_pow" => return Some(PrimInt::pow(v(0), parse_u32(a[1])).out()),
+            "mul_add_assign" => { let mut x = v(0); MulAddAssign::mul_add_assign(&mut x, v(1), v(2)); return Some(x.out()) }
             "mul_add" => return Some(MulAdd::mul_add(v(0), v(1), v(2)).out()),
             "div_euclid" => return Some(Euclid::div_euclid(&v(0), &v(1)).out()),
             "rem_euclid" => return Some(Euclid::rem_euclid(&v(0), &v(1)).out()),
@@ -47,6 +66,11 @@ macro_rules! common {
             "count_zeros" => return Some(Dec(PrimInt::count_zeros(v(0))).out()),
             "leading_zeros" => return Some(Dec(PrimInt::leading_zeros(v(0))).out()),
             "trailing_zeros" => return Some(Dec(PrimInt::trailing_zeros(v(0))).out()),
+            "leading_ones" => return Some(Dec(PrimInt::leading_ones(v(0))).out()),
+            "trailing_ones" => return Some(Dec(PrimInt::trailing_ones(v(0))).out()),
+            "reverse_bits" => return Some(PrimInt::reverse_bits(v(0)).out()),
+            "from_be" => return Some(<$T as PrimInt>::from_be(v(0)).out()),
+            "from_le" => return Some(<$T as PrimInt>::from_le(v(0)).out()),
             "rotate_left" => return Some(PrimInt::rotate_left(v(0), parse_u32(a[1])).out()),
             "rotate_right" => return Some(PrimInt::rotate_right(v(0), parse_u32(a[1])).out()),
             "swap_bytes" => return Some(PrimInt::swap_bytes(v(0)).out()),
